@@ -87,7 +87,8 @@ func (t *Queue[T]) Add(value T, scheduledTime time.Time) (addedElement *QueueEle
 	if t.maxSize > 0 {
 		// heap is bigger than maxSize now; remove the last element (furthest in the future).
 		if size := t.heap.Len(); size > t.maxSize {
-			heap.Remove(&t.heap, size-1)
+			//nolint:forcetypeassert // false positive, we know that the element is of type *QueueElement[T]
+			heap.Remove(&t.heap, size-1).(*generalheap.HeapElement[HeapKey, *QueueElement[T]]).Value.markDropped()
 		}
 	}
 
@@ -145,7 +146,8 @@ func (t *Queue[T]) Shutdown(optionalShutdownFlags ...ShutdownFlag) {
 	// empty the queue if the corresponding flag was set
 	if t.shutdownFlags.HasBits(CancelPendingElements) {
 		for range len(t.heap) {
-			heap.Pop(&t.heap)
+			//nolint:forcetypeassert // false positive, we know that the element is of type *QueueElement[T]
+			heap.Pop(&t.heap).(*generalheap.HeapElement[HeapKey, *QueueElement[T]]).Value.markDropped()
 		}
 	}
 
@@ -199,6 +201,7 @@ func (t *Queue[T]) Poll(waitIfEmpty bool) T {
 			// abort if the pending elements are supposed to be canceled
 			if t.shutdownFlags.HasBits(CancelPendingElements) {
 				timeutil.CleanupTimer(timer)
+				polledElement.Value.markDropped()
 				var empty T
 
 				return empty
@@ -283,6 +286,12 @@ const (
 // markDelivered is called by Poll right before it hands out the element; it returns false if the element was canceled.
 func (timedQueueElement *QueueElement[T]) markDelivered() bool {
 	return timedQueueElement.state.CompareAndSwap(elementPending, elementDelivered)
+}
+
+// markDropped is called when the queue discards the element (size bound, shutdown with CancelPendingElements): it is not
+// pending any more, so a later Cancel has nothing to prevent (and reports that).
+func (timedQueueElement *QueueElement[T]) markDropped() {
+	timedQueueElement.state.CompareAndSwap(elementPending, elementCanceled)
 }
 
 // Cancel removed the given element from the queue and cancels its execution.
